@@ -58,6 +58,21 @@ impl Drop for ApplyOnDrop<'_> {
     }
 }
 
+/// A thread-local whose destructor makes one more `apply` when the thread exits (a "flush at
+/// exit"). It is initialised before the thread's first ordinary `apply`, so it outlives any
+/// thread-local the lock itself may keep.
+struct FlushAtExit(std::cell::RefCell<Option<(Arc<Vec<essential_lock::StdLock<u64>>>, usize, u64)>>);
+impl Drop for FlushAtExit {
+    fn drop(&mut self) {
+        if let Some((locks, l, d)) = self.0.borrow_mut().take() {
+            locks[l].apply(|v| *v |= d);
+        }
+    }
+}
+thread_local! {
+    static FLUSH: FlushAtExit = const { FlushAtExit(std::cell::RefCell::new(None)) };
+}
+
 fn lock_mode(seed: u64) -> i32 {
     use essential_lock::StdLock;
     // deliberate panics (outside `apply`) are part of the scenario: keep them quiet
@@ -70,6 +85,7 @@ fn lock_mode(seed: u64) -> i32 {
     let mut handles = Vec::new();
     let mut n_unwind = 0;
     let mut n_unpark = 0;
+    let mut exit_updates: Vec<(usize, u64)> = Vec::new();
     for t in 0..n_threads {
         let n = 1 + rng.below(3) as usize;
         // (lock, delta, inside, outside, stale wake-up token pending, call made while unwinding)
@@ -85,7 +101,21 @@ fn lock_mode(seed: u64) -> i32 {
             })
             .collect();
         let locks = locks.clone();
+        // one thread in three leaves an update to be made by a thread-local destructor
+        let flush = if rng.below(3) == 0 && bit < 60 {
+            let d = 1u64 << bit;
+            bit += 1;
+            Some((rng.below(n_locks as u64) as usize, d))
+        } else {
+            None
+        };
+        if let Some((l, d)) = flush {
+            exit_updates.push((l, d));
+        }
         handles.push(std::thread::spawn(move || {
+            if let Some((l, d)) = flush {
+                FLUSH.with(|f| *f.0.borrow_mut() = Some((locks.clone(), l, d)));
+            }
             let mut obs = Vec::new();
             for (l, d, inside, outside, unpark, unwind) in steps {
                 let token = ((t as u64) << 32) | d.trailing_zeros() as u64;
@@ -167,12 +197,34 @@ fn lock_mode(seed: u64) -> i32 {
                 return 1;
             }
         };
-        if fin != cur {
-            println!("VIOLATION-DETAIL lock {l}: final value {fin:#x}, all updates {cur:#x}");
+        // updates made by thread-local destructors at thread exit (joined: they are done)
+        let at_exit: u64 = exit_updates.iter().filter(|(el, _)| *el == l).map(|(_, d)| *d).sum();
+        if fin != cur | at_exit {
+            println!("VIOLATION-DETAIL lock {l}: final value {fin:#x}, all updates {:#x} (of which at thread exit {at_exit:#x})", cur | at_exit);
             return 1;
         }
     }
-    println!("ok lock seed={seed} threads={n_threads} locks={n_locks} closures={bit} stale_unpark={n_unpark} during_unwind={n_unwind}");
+    // Last: a closure changes the value and then panics (the caller contains the panic). The
+    // update it left behind is half-applied by definition; no later closure may be run on it as
+    // if nothing had happened.
+    if seed % 3 == 0 {
+        let l = 0;
+        let r = std::panic::catch_unwind(std::panic::AssertUnwindSafe(|| {
+            locks[l].apply(|v| {
+                *v ^= 1 << 63;
+                if *v != 0 {
+                    panic!("deliberate panic inside a closure, after a partial update");
+                }
+            })
+        }));
+        assert!(r.is_err());
+        let after = std::panic::catch_unwind(std::panic::AssertUnwindSafe(|| locks[l].apply(|v| *v)));
+        if let Ok(v) = after {
+            println!("VIOLATION-DETAIL lock {l} seed={seed}: a closure panicked after changing the value; a later apply ran on the half-applied update ({v:#x}) as if nothing had happened");
+            return 1;
+        }
+    }
+    println!("ok lock seed={seed} threads={n_threads} locks={n_locks} closures={bit} stale_unpark={n_unpark} during_unwind={n_unwind} at_thread_exit={}", exit_updates.len());
     0
 }
 
@@ -288,11 +340,15 @@ fn post_leaf(tag: Word, key0: Word) -> Vec<Op> {
 type Built = (SolutionSet, HashMap<PredicateAddress, Arc<Predicate>>, HashMap<ContentAddress, Arc<Program>>, State);
 
 fn build(seed: u64) -> Built {
+    build_n(seed, 1)
+}
+
+fn build_n(seed: u64, min_sols: usize) -> Built {
     let mut rng = Rng(seed);
     let mut programs: HashMap<ContentAddress, Arc<Program>> = HashMap::new();
     let mut predicates = HashMap::new();
     let mut solutions = Vec::new();
-    let n_sols = 1 + rng.below(2) as usize;
+    let n_sols = min_sols + rng.below(2) as usize;
     for s in 0..n_sols {
         let t = 1000 * (s as Word + 1);
         // graph: root(compute) -> {mid1(compute), mid2(digest)} -> leaves
@@ -424,6 +480,55 @@ fn checker_mode(seed: u64) -> i32 {
     0
 }
 
+/// C04: the same set delivered in another order, on the same real pool: same verdict, same
+/// total gas, same computed mutations per solution.
+fn perm_mode(seed: u64) -> i32 {
+    let a = build_n(seed, 2);
+    let k = 2 + (seed % 3) as usize;
+    let shared = pool(k);
+    let collect_all = seed % 2 == 0;
+    let run = |b: &Built| {
+        let (set, preds, progs, st) = b;
+        shared.install(|| {
+            sol::check_and_compute_solution_set_two_pass(
+                st,
+                set.clone(),
+                Arc::new(preds.clone()),
+                Arc::new(progs.clone()),
+                Arc::new(CheckPredicateConfig { collect_all_failures: collect_all }),
+            )
+        })
+    };
+    let r1 = run(&a);
+    // reverse the order of the members
+    let n = a.0.solutions.len();
+    let mut rev = a.0.clone();
+    rev.solutions.reverse();
+    let b: Built = (rev, a.1.clone(), a.2.clone(), a.3.clone());
+    let r2 = run(&b);
+    match (&r1, &r2) {
+        (Ok((g1, s1)), Ok((g2, s2))) => {
+            if g1 != g2 {
+                println!("VIOLATION-DETAIL perm seed={seed}: total gas {g1} in one order, {g2} in the reverse order ({k} threads)");
+                return 1;
+            }
+            for i in 0..n {
+                if s1.solutions[i].state_mutations != s2.solutions[n - 1 - i].state_mutations {
+                    println!("VIOLATION-DETAIL perm seed={seed}: mutations of solution {i} differ between the two orders");
+                    return 1;
+                }
+            }
+        }
+        (Err(_), Err(_)) => {}
+        _ => {
+            println!("VIOLATION-DETAIL perm seed={seed}: verdict {} in one order, {} in the reverse order", project(r1), project(r2));
+            return 1;
+        }
+    }
+    println!("ok perm seed={seed} threads={k} solutions={n} verdict={}", if r1.is_ok() { "Ok" } else { "Err" });
+    0
+}
+
 // ---------------------------------------------------------------------------------
 // C10 on the bare VM: children end at index-dependent positions (a sled of ComputeEnd),
 // allocate index-dependent memory and read the parent's memory; the parent must resume at
@@ -480,6 +585,7 @@ fn main() {
     let code = match a.get(1).map(|s| s.as_str()) {
         Some("lock") => lock_mode(seed),
         Some("checker") => checker_mode(seed),
+        Some("perm") => perm_mode(seed),
         Some("vm") => vm_mode(seed),
         _ => {
             eprintln!("usage: miri-real lock|checker <workload-seed>");
